@@ -4,14 +4,15 @@ from props.common import BASE_TRUSTED
 
 PROP = 'C04'
 KERNELS = ['px_propagate', 'px_rot_x', 'px_rot_y', 'px_rot_z', 'cs_localize_px', 'cs_globalize_px',
-           'geom_localize_px', 'geom_globalize_px', 'surf_trace_paraxial', 'translate']
+           'geom_localize_px', 'geom_globalize_px', 'surf_trace_paraxial', 'translate', 'px_marginal_launch']
 THEOREMS = ['C04_pstep_matrix', 'C04_ptrace_is_atrace', 'C04_atrace_abcd', 'C04_atrace_linear',
             'C04_lagrange_records', 'C04_mdet_sysmat', 'C04_lagrange_invariant', 'C04_sysmats_last',
             'C04_mapply_mmul', 'C04_mdet_surf', 'C04_focal_from_matrix',
             'C04_tg_forward_matrix', 'C04_XPL_from_matrix', 'C04_marginal_ray_matrix_infinite',
             'C04_marginal_ray_matrix_finite', 'C04_magnification_matrix', 'C04_magnification_is_A',
             'C04_wf_inverted', 'C04_tg_reverse_matrix', 'C04_EPL_from_matrix',
-            'C04_reversed_system_matrix', 'C04_reversed_entries', 'C04_f1_F1_from_forward_matrix', 'C04_EPL_classical']
+            'C04_reversed_system_matrix', 'C04_reversed_entries', 'C04_f1_F1_from_forward_matrix', 'C04_EPL_classical',
+            'C04_marginal_ray_launch_regenerated']
 COQ_TARGETS = ['Model/Paraxial.vo']
 TRUSTED_BASE = BASE_TRUSTED + [
     'hand model coq/Model/Paraxial.v (composition of traces into f1 f2 F1 F2 P1 P2 N1 N2 EPL EPD XPL XPD FNO '
@@ -64,6 +65,30 @@ def kernel_cases(ctx):
         except Exception as e:    # noqa
             pyres.append({'err': type(e).__name__})
     yield 'surf_trace_paraxial', cases, {'pyres': pyres}
+    # the regenerated LAUNCH of the marginal ray against Paraxial.marginal_ray on real lenses (its final
+    # _trace_generic call is intercepted: the arguments are the launch)
+    import random, lensgen
+    r3 = random.Random(ctx.seed * 13 + 6)
+    lc, lres = [], []
+    for i in range(ctx.n(40, 400)):
+        spec = lensgen.rear_stop_spec(r3) if i % 8 == 7 else lensgen.gen_spec(r3, allow=['plane', 'standard', 'conic'], decenter=False,
+                                                                                 finite_object=(True if i % 2 else None))
+        try:
+            o = lensgen.build_via(spec, 'direct', r3)
+            px = o.paraxial
+            inp = [float(px.EPD()), [float(np.ravel(v)[0]) for v in px.surfaces.positions], bool(o.object_surface.is_infinite),
+                   float(o.object_surface.geometry.cs.z), float(px.EPL()), float(o.primary_wavelength)]
+            calls, orig = [], px._trace_generic
+            px._trace_generic = lambda *a, **kw: (calls.append((a, kw)), orig(*a, **kw))[1]
+            px.marginal_ray()            # EPD() / EPL() trace too: the LAST call is the launch of the marginal ray
+            (a, kw) = calls[-1]
+            if kw or len(a) != 4:
+                raise ValueError('unexpected launch call')
+            lres.append({'ok': [float(np.ravel(v)[0]).hex() for v in a]})
+            lc.append(inp)
+        except Exception:    # noqa  (a lens that does not build is not a case of this kernel)
+            continue
+    yield 'px_marginal_launch', lc, {'pyres': lres}
 
 
 def _cases(ctx, nl):
